@@ -89,19 +89,21 @@ SUFFIXES = ["", "7", "a", "+", "|", "`q`", "kA", ".5"]
 def _check_positional(key: str):
     """A key must be one GENERAL token wherever it stands: tokenise(p + key + s)
     == tokenise(p) + [GENERAL key] + tokenise(s) for every neighbouring token."""
-    tok = vyxal.lexer.tokenise
     mid = [vyxal.lexer.Token(T.GENERAL, key)]
-    for pre in PREFIXES:
-        if pre in ("→", "←ab") and (key[0].isalpha() or key[0] == "_") and key[0].isascii():
-            continue  # documented: names absorb following ASCII letters / underscore
-        for suf in SUFFIXES:
-            try:
-                got = tok(pre + key + suf)
-                want = tok(pre) + mid + tok(suf)
-            except Exception as e:  # noqa: BLE001
-                return ("positional-raises", f"tokenise({pre + key + suf!r}) raised {e!r}")
-            if got != want:
-                return ("positional", f"key {key!r} between {pre!r} and {suf!r}: tokenise({pre + key + suf!r}) = {got!r}, expected {want!r}")
+    for vmode in (False, True):   # default lexing, and one-letter variable names (the V flag)
+        tok = (lambda s_: vyxal.lexer.tokenise(s_, True)) if vmode else vyxal.lexer.tokenise
+        note = " [variables_as_digraphs=True]" if vmode else ""
+        for pre in PREFIXES:
+            if pre in ("→", "←ab") and (key[0].isalpha() or key[0] == "_") and key[0].isascii():
+                continue  # documented: names absorb following ASCII letters / underscore
+            for suf in SUFFIXES:
+                try:
+                    got = tok(pre + key + suf)
+                    want = tok(pre) + mid + tok(suf)
+                except Exception as e:  # noqa: BLE001
+                    return ("positional-raises", f"tokenise({pre + key + suf!r}) raised {e!r}" + note)
+                if got != want:
+                    return ("positional", f"key {key!r} between {pre!r} and {suf!r}: tokenise({pre + key + suf!r}) = {got!r}, expected {want!r}" + note)
     return None
 
 
@@ -203,7 +205,7 @@ def run(rec, tier, seed):
                + list(P.STRUCTURE_INFORMATION) + list(P.CLOSING_CHARACTERS) + ["|", P.BREAK_CHARACTER, P.RECURSE_CHARACTER])
     for k in dict.fromkeys(allkeys):
         r = _check_positional(k)
-        rec.case(nontrivial=True, cls="key-positional", n=len(PREFIXES) * len(SUFFIXES))
+        rec.case(nontrivial=True, cls="key-positional", n=2 * len(PREFIXES) * len(SUFFIXES))
         if r:
             rec.fail(f"C20:{r[0]}:{k}", {"kind": "positional", "key": k}, r[1])
     rec.sample({"positional": {"prefixes": PREFIXES[:6], "suffixes": SUFFIXES}})
